@@ -147,6 +147,49 @@ def inst_ops(g, rng, tier):
         for opt, tag, okdb in ((0x40000, "er", er), (0x240000, "er", er), (0x440000, "er", er), (0x640000, "er", er), (0x80000, "sae", sae)):
             ops.append(" ".join(w[:3] + ["%x" % (int(w[3], 16) | opt)] + w[4:]))
             info.append(("any" if okdb else "deco", "deco-" + tag, g["insts_by_line"][line]))
+    # boundary register ids {0,7,8,15,16,31} in every register position (operands, memory base and index, {k} register) of
+    # one register and one memory instantiation per database form and mode: the validator admits => the assembler encodes
+    seen_fm = set()
+    for i in g["insts"]:
+        if not i["implemented"]:
+            continue
+        w = i["line"].split()
+        has_mem = any(o.startswith("m:") for o in w[5:])
+        fk = (i["form"], i["mode"], has_mem, w[4] != "-")
+        if fk in seen_fm:
+            continue
+        seen_fm.add(fk)
+        variants = {}
+
+        def nonexistent(rt, b):
+            """the architecture has no register `b` of RegType `rt` in this mode"""
+            if rt in (2, 4, 5, 6):
+                return b >= (8 if i["mode"] == 32 else 16)
+            if rt == 3:
+                return b >= 4
+            if rt in (11, 12, 13):
+                return b >= (8 if i["mode"] == 32 else 32)
+            if rt in (16, 28, 29):
+                return b >= 8
+            return False
+
+        for b in (0, 7, 8, 15, 16, 31):
+            if w[4] != "-":
+                f = w[4].split(":")
+                variants[" ".join(w[:4] + [":".join(f[:2] + [str(b)])] + w[5:])] = nonexistent(int(f[1]), b)
+            for k, o in enumerate(w[5:]):
+                f = o.split(":")
+                if f[0] == "r":
+                    variants[" ".join(w[:5 + k] + [":".join(f[:2] + [str(b)])] + w[6 + k:])] = nonexistent(int(f[1]), b)
+                elif f[0] == "m":
+                    if int(f[2]) > 1:
+                        variants[" ".join(w[:5 + k] + [":".join(f[:3] + [str(b)] + f[4:])] + w[6 + k:])] = nonexistent(int(f[2]), b)
+                    if int(f[4]) != 0:
+                        variants[" ".join(w[:5 + k] + [":".join(f[:5] + [str(b)] + f[6:])] + w[6 + k:])] = nonexistent(int(f[4]), b)
+        variants.pop(i["line"], None)
+        for v in sorted(variants):
+            ops.append(v)
+            info.append(("regx" if variants[v] else "any", "reg-id", i["form"]))
     nmut = 2 if tier == "quick" else 10
     for i in g["insts"]:
         if not i["implemented"]:
@@ -206,10 +249,107 @@ def a64_sweep(res, rng):
         return
     bad = [(o, a, b, m) for o, a, b, m in zip(ops, off, on, mon) if m != "good"]
     res.coverage["a64_sweep"] = {"lines": len(ops), "accepted": sum(1 for a in off if a.startswith("ok")), "validation_changes": len(bad)}
+    a64_accept_side(res, rng, h, ops, off)
     if bad:
         o, a, b, m = bad[0]
         res.violation("a64:%s: %s -> without validation %r, with validation %r (%d such inputs)" % (m[4:], o, a, b, len(bad)),
                       {"ops": [o], "off": a, "on": b, "how": "C13_VALIDATE=1 h_c13_a64"}, True, key="a64:" + m[4:])
+
+
+def _a64_reg_positions(tok):
+    """[(field index in the '.'-split token, old id)] of the register ids a C02 operand token carries"""
+    if tok.startswith("ml") or tok in ("-", "l"):
+        return []
+    f = tok[1:].split(".")
+    if tok[0] == "r" and len(f) >= 2:
+        return [(1, int(f[1]))]
+    if tok[0] == "m" and len(f) == 8:
+        out = []
+        if int(f[0]) > 1:
+            out.append((1, int(f[1])))
+        if int(f[2]) != 0:
+            out.append((3, int(f[3])))
+        return out
+    return []
+
+
+def a64_accept_side(res, rng, h, ops, impl):
+    """AArch64 accept side: the general registers 0..30 are interchangeable in every register field of the database, so a
+    line the assembler encodes correctly (C02's database monitor says `good`) must stay encodable when ONE register id -
+    operand, memory base or memory index - is replaced by a boundary id {0, 29, 30} not used elsewhere in the line. A refused
+    variant is judged by the database: the accepted word with that register field patched is offered to C02's monitor
+    (`describes`); if a database form describes the variant's operands by it, the assembler refused a database form."""
+    acc = [k for k, a in enumerate(impl) if a.startswith("ok ") and len(a.split()) == 2]
+    mon, _, _ = vlib.run_model("C02", ["mon " + ops[k][5:] + " => " + impl[k] for k in acc])
+    base = [k for k, m in zip(acc, mon) if m == "good"]
+    limit = 25000 if res.tier == "quick" else 200000
+    if len(base) > limit:
+        base = sorted(rng.sample(base, limit))
+    var, origin = [], []
+    seen = set(ops)
+    for k in base:
+        w = ops[k].split()
+        used = {rid for t in w[4:] for _, rid in _a64_reg_positions(t)}
+        for ti in range(4, len(w)):
+            for fi, old in _a64_reg_positions(w[ti]):
+                if old > 30:
+                    continue
+                for b in (0, 29, 30):
+                    if b == old or b in used:
+                        continue
+                    f = w[ti][1:].split(".")
+                    f[fi] = str(b)
+                    line = " ".join(w[:ti] + [w[ti][0] + ".".join(f)] + w[ti + 1:])
+                    if line not in seen:
+                        seen.add(line)
+                        var.append(line)
+                        origin.append((k, old, b))
+    if len(var) < 1000:
+        res.violation("AArch64 accept side: only %d boundary variants from %d judged lines" % (len(var), len(base)), {}, False, key="empty")
+        return
+    out, rc, err = vlib.run_lines([str(h)], var)
+    if rc != 0 or len(out) != len(var):
+        i, tail = vlib.locate_abort([str(h)], var)
+        res.violation("AArch64 accept side: harness abort at %r: %s" % (var[min(i, len(var) - 1)], tail[-300:]),
+                      {"ops": [var[min(i, len(var) - 1)]]}, found_input=True, key="a64:abort")
+        return
+    refused = [j for j, a in enumerate(out) if not a.startswith("ok")]
+    q, qi = [], []
+    for j in refused:
+        k, old, b = origin[j]
+        word = int(impl[k].split()[1], 16)
+        cands = set()
+        allp = word
+        for sh in (0, 5, 10, 16):
+            if (word >> sh) & 31 == old:
+                cands.add(word & ~(31 << sh) | (b << sh))
+                allp = allp & ~(31 << sh) | (b << sh)
+        cands.add(allp)
+        cands.discard(word)
+        for c in sorted(cands):
+            q.append("mon " + var[j][5:] + " => ok %x" % c)
+            qi.append(j)
+    ans, _, _ = vlib.run_model("C02", q) if q else ([], 0, "")
+    if len(ans) != len(q):
+        res.violation("AArch64 accept side: monitor protocol failure", {}, False, key="protocol")
+        return
+    hit = {}
+    for j, a, ql in zip(qi, ans, q):
+        if a == "good" and j not in hit:
+            hit[j] = ql
+    res.coverage["a64_accept_side"] = {"judged_base_lines": len(base), "boundary_variants": len(var), "accepted": len(var) - len(refused),
+                                       "refused": len(refused), "refused_but_described_by_the_database": len(hit)}
+    by = {}
+    for j in sorted(hit):
+        key = "a64:encoder-refuses-db-form:" + out[j].split()[-1]
+        by.setdefault(key, []).append(j)
+    for key, js in sorted(by.items()):
+        j = js[0]
+        k, old, b = origin[j]
+        res.violation("%s: %s -> %s although the database describes it (%s); the same line with register %d instead of %d is encoded as %s "
+                      "(%d such lines)" % (key, var[j], out[j], hit[j].split("=>")[1].strip(), old, b, impl[k], len(js)),
+                      {"ops": [var[j], ops[k]], "impl": out[j], "database_word": hit[j], "more": [var[x] for x in js[1:6]],
+                       "how": "h_c13_a64 (same protocol as harness/c02.cpp)"}, True, key=key)
 
 
 def run(res):
@@ -333,6 +473,10 @@ def run(res):
                 if not key.endswith(":no-operands"):
                     # database forms: one key per instruction (exact); near-miss mutations: one key per mutated part
                     key += ":" + (id2name.get(int(w[2]), "?") if inf[1] == "form" else "mut-" + group_of(inf[1]))
+            elif cls == "validator-accepts-nonexistent-register":
+                w = ops[k].split()
+                key = "agree:%s:%s" % (cls, "extra" if w[4] != "-" and w[4].split(":")[2] not in ("1", "2", "3") and info[k][0] == "regx" and
+                                       int(w[4].split(":")[2]) >= 8 else "operand")
             elif cls.endswith("excluded-decoration"):
                 key = "agree:%s:%s:%s" % (cls, inf[1], id2name.get(int(ops[k].split()[2]), "?"))
             else:
